@@ -71,6 +71,11 @@ fn contexts(call: &str, j1: &str, j2: &str) -> Vec<(&'static str, Vec<String>, S
         ("call-chain-3", vec![format!("h1 = (k, m) => {}", c), "h2 = (m, k) => h1(k, m)".into(), "h3 = k => h2(k, k)".into()], format!("h3({})", j1), 0),
         ("nested-lambda", vec![], format!("((k) => ((m) => {})({}))({})", c, j2, j1), 0),
         ("into-operator", vec![], format!("{} into (k => {})", j1, c), 0),
+        // aliases of f under the names it captured / uses
+        ("alias-in-do-block", vec![], format!("do {{\n  k = f\n  m = f\n  g = f\n  return {}\n}}", c), 0),
+        ("alias-at-top-level", vec!["alias_one = f".into(), "alias_two = alias_one".into()], c.to_string(), 0),
+        ("alias-as-argument", vec![], format!("((k, m, g) => {})(f, f, f)", c), 0),
+        ("call-through-alias", vec!["alias_three = f".into()], c.replacen("f(", "alias_three(", 1), 0),
     ]
 }
 
